@@ -11,7 +11,7 @@ from ..space import ops
 
 PID = "C06"
 LEVEL = "exploration"
-RULE = ("operations with every declared-response set of size<=3 over {200, 204, 302, 404, 422, 499, 500, 520, default, default+content} (499/520: error codes without a named exception class) x EVERY status 100..599 outside "
+RULE = ("operations with every declared-response set of size<=3 over {200 (JSON model / SSE stream / byte stream), 204, 302, 404, 422, 499, 500, 520, default, default+content} (499/520: error codes without a named exception class) x EVERY status 100..599 outside "
         "200-299 answered by the in-memory server x transport in {bundled HttpxTransport, custom pass-through transport that returns non-2xx unraised}; "
         "each call must raise an instance of the package's HTTPError carrying that status and the response; 4xx -> ClientError, 5xx -> ServerError. "
         "non-trivial = distinct (declared set, status, transport) calls")
@@ -23,8 +23,8 @@ BOUND = {"quick": "166 declared sets of size<=3 over 10 elements x (400 statuses
 CHUNK = 1
 PACK = 6
 
-ELEMS = ["200", "204", "302", "404", "422", "499", "500", "520", "default", "default+content"]
-CONTENT = {"200": "json-model", "204": "none", "302": "none", "404": "json-model", "422": "none", "499": "none", "500": "json-model", "520": "json-model", "default": "none",
+ELEMS = ["200", "200-sse", "200-bytes", "204", "302", "404", "422", "499", "500", "520", "default", "default+content"]
+CONTENT = {"200-sse": "event-stream", "200-bytes": "octet", "200": "json-model", "204": "none", "302": "none", "404": "json-model", "422": "none", "499": "none", "500": "json-model", "520": "json-model", "default": "none",
            "default+content": "json-model"}
 STATUSES = [s for s in range(100, 600) if not 200 <= s <= 299]
 
@@ -36,9 +36,11 @@ def op_cases(tier):
         for combo in itertools.combinations(ELEMS, k):
             if "default" in combo and "default+content" in combo:
                 continue
+            if sum(1 for e in combo if e.startswith("200")) > 1:
+                continue
             responses = {}
             for e in combo:
-                responses["default" if e.startswith("default") else e] = CONTENT[e]
+                responses["default" if e.startswith("default") else e.split("-")[0]] = CONTENT[e]
             out.append(ops.op("get", "/e", [], None, responses))
     return out
 
@@ -69,6 +71,10 @@ BODIES = [
     ("empty", "application/json", b""),
     ("html", "text/html; charset=utf-8", b"<h1>Bad gateway</h1>"),
     ("no-ctype", "", b"plain"),
+    # response headers that error handling might look at, in every legal spelling
+    ("retry-after-date", "application/json", b'{"message": "slow down"}', {"Retry-After": "Wed, 21 Oct 2015 07:28:00 GMT"}),
+    ("retry-after-seconds", "application/json", b'{"message": "slow down"}', {"Retry-After": "120"}),
+    ("www-authenticate", "application/json", b'{"message": "who"}', {"WWW-Authenticate": 'Bearer realm="x", error="invalid_token"', "Content-Language": "fi"}),
 ]
 BODY_STATUSES = [100, 302, 400, 404, 422, 499, 500, 503, 520, 599]
 # every status with the plain JSON object body + every body kind at ten representative statuses
@@ -76,7 +82,8 @@ CALLS = [(s, 0) for s in STATUSES] + [(s, b) for s in BODY_STATUSES for b in ran
 
 
 def make_calls(case):
-    return [{"kwargs": {}, "response": {"status": s, "ctype": BODIES[b][1], "body_b64": _b(BODIES[b][2])}} for s, b in CALLS]
+    return [{"kwargs": {}, "response": {"status": s, "ctype": BODIES[b][1], "body_b64": _b(BODIES[b][2]), "headers": (BODIES[b][3] if len(BODIES[b]) > 3 else None)}}
+            for s, b in CALLS]
 
 
 def run_case(case):
